@@ -8,7 +8,7 @@ values) and everything **further below** (`deep`), where the objects are
 
 * `root i`  – the object the caller passed as parameter `i` itself,
 * `inner i` – everything reachable strictly below that object (lumped),
-* `rec i`   – a *record* (Mod, Interval, Fragment, …) the caller handed in as / below parameter `i`, together with what it
+* `recd i`  – a *record* (Mod, Interval, Fragment, …) the caller handed in as / below parameter `i`, together with what it
                holds: the translator casts a value to this object (`asRec`) where its static type is a record type.  A write
                to it is a write to parameter `i`; for the no-shared-state clause a record handed in may be handed back,
 * `glob g`  – a process-wide object (module-level table, database, the module random generator),
@@ -29,27 +29,30 @@ abbrev Var := Nat
 inductive Obj where
   | root (i : Nat)
   | inner (i : Nat)
-  | rec (i : Nat)
+  | recd (i : Nat)
+  | recTop (i : Nat)   -- parameter `i` itself where its static type is a record type
   | glob (g : Nat)
   | loc (s : Nat)
   deriving DecidableEq, Repr, Inhabited
 
 /-- the record view of an object: what the caller handed in becomes "a record of parameter i" -/
 def toRec : Obj → Obj
-  | .root i => .rec i
-  | .inner i => .rec i
+  | .root i => .recTop i
+  | .inner i => .recd i
   | o => o
 
 /-- records and other objects below the same parameter may be the same concrete object -/
 def norm : Obj → Obj
-  | .rec i => .inner i
+  | .recd i => .inner i
+  | .recTop i => .root i
   | o => o
 
 /-- where a callee's return value / stored links come from, relative to the callee's parameters -/
 inductive Src where
   | top (j : Nat)      -- the objects argument `j` may denote
   | below (j : Nat)    -- the objects argument `j` may hold or reach
-  | recs (j : Nat)     -- argument `j` and what is below it, seen as records
+  | recs (j : Nat)     -- what is below argument `j`, seen as records
+  | recTop (j : Nat)   -- argument `j` itself, seen as a record
   | fresh              -- an object allocated by the callee
   | glob (g : Nat)
   deriving DecidableEq, Repr, Inhabited
@@ -69,7 +72,9 @@ inductive Stmt where
   | global  (x : Var) (g : Nat)                 -- x refers to the process-wide object g
   | alias   (x : Var) (ys : List Var)           -- x = y / x = y or z / x = a if c else b
   | elem    (x : Var) (y : Var)                 -- x = y.attr / y[k] / for x in y / y.pop()
-  | asRec   (x : Var) (y : Var)                 -- x = y where the static type of y is a record type (Mod, Interval, Fragment ...)
+  | asRec   (x : Var) (y : Var) (d : Nat)       -- x = y where, by its static type, y is a record (d = 0: Mod, Interval,
+                                                --   Fragment ...), a container of records (d = 1) or a container of those (d = 2)
+  | leaf    (x : Var) (y : Var)                 -- x = y where, by its static type, y holds only immutable values (numbers, strings)
   | fresh   (x : Var)                           -- deep copy, literal, parse result: a new object sharing nothing
   | shallow (x : Var) (ys : List Var)           -- list(y), dict(y), sorted(y), y[:] : new container, same elements
   | pack    (x : Var) (ys : List Var)           -- [a, b], (a, b), C(a, b): new container holding the objects themselves
@@ -97,7 +102,11 @@ def overlaps (a b : List Obj) : Bool := a.any (fun o => b.any (fun o' => norm o 
 
 def Pts.get (P : Pts) (x : Var) : Cell := P.getD x {}
 
-def Cell.map (f : Obj → Obj) (c : Cell) : Cell := { top := c.top.map f, kids := c.kids.map f, deep := c.deep.map f }
+/-- apply `f` to the levels at depth `d` and below (0 = the objects themselves, 1 = what they hold, 2 = further below) -/
+def Cell.mapFrom (d : Nat) (f : Obj → Obj) (c : Cell) : Cell :=
+  { top := if d = 0 then c.top.map f else c.top
+    kids := if d ≤ 1 then c.kids.map f else c.kids
+    deep := c.deep.map f }
 
 def Cell.join (d c : Cell) : Cell := { top := union d.top c.top, kids := union d.kids c.kids, deep := union d.deep c.deep }
 
@@ -127,7 +136,8 @@ def argCell (P : Pts) (args : List (Option Var)) (j : Nat) : Cell :=
 def sel (P : Pts) (args : List (Option Var)) (ret : Var) : Src → List Obj
   | .top j => (argCell P args j).top
   | .below j => (argCell P args j).kids ++ (argCell P args j).deep
-  | .recs j => ((argCell P args j).top ++ ((argCell P args j).kids ++ (argCell P args j).deep)).map toRec
+  | .recs j => ((argCell P args j).kids ++ (argCell P args j).deep).map toRec
+  | .recTop j => (argCell P args j).top.map toRec
   | .fresh => [.loc ret]
   | .glob g => [.glob g]
 
@@ -139,7 +149,8 @@ def step (S : List Summary) : Stmt → Pts → Pts
   | .global x g, P => P.add x { top := [.glob g], kids := [.glob g], deep := [.glob g] }
   | .alias x ys, P => ys.foldl (fun Q y => Q.add x (P.get y)) P
   | .elem x y, P => P.add x { top := (P.get y).kids, kids := (P.get y).deep, deep := (P.get y).deep }
-  | .asRec x y, P => P.add x ((P.get y).map toRec)
+  | .asRec x y d, P => P.add x ((P.get y).mapFrom d toRec)
+  | .leaf x y, P => P.add x { top := (P.get y).top }
   | .fresh x, P => P.add x { top := [.loc x] }
   | .shallow x ys, P =>
     P.add x { top := [.loc x], kids := ys.flatMap (fun y => (P.get y).kids), deep := ys.flatMap (fun y => (P.get y).deep) }
@@ -235,7 +246,8 @@ def closedStmt (S : List Summary) (s : Stmt) (A : Pts) : Bool :=
   | .global x g => cellSub { top := [.glob g], kids := [.glob g], deep := [.glob g] } (A.get x)
   | .alias x ys => ys.all (fun y => cellSub (A.get y) (A.get x))
   | .elem x y => cellSub { top := (A.get y).kids, kids := (A.get y).deep, deep := (A.get y).deep } (A.get x)
-  | .asRec x y => cellSub ((A.get y).map toRec) (A.get x)
+  | .asRec x y d => cellSub ((A.get y).mapFrom d toRec) (A.get x)
+  | .leaf x y => cellSub { top := (A.get y).top } (A.get x)
   | .fresh x => cellSub { top := [.loc x] } (A.get x)
   | .shallow x ys =>
     cellSub { top := [.loc x], kids := ys.flatMap (fun y => (A.get y).kids), deep := ys.flatMap (fun y => (A.get y).deep) }
@@ -259,7 +271,8 @@ def closedB (S : List Summary) (p : List Stmt) (A : Pts) : Bool := p.all (fun s 
 def paramOf : Obj → Option Nat
   | .root i => some i
   | .inner i => some i
-  | .rec i => some i
+  | .recd i => some i
+  | .recTop i => some i
   | _ => none
 
 /-- for the no-shared-state clause: the caller's containers and annotations (records handed in are exempt) -/
@@ -299,7 +312,8 @@ def mayWriteGlobal (S : List Summary) (p : List Stmt) (fuel : Nat) : List Nat :=
 def srcOfObj : Obj → Src
   | .root j => .top j
   | .inner j => .below j
-  | .rec j => .recs j
+  | .recd j => .recs j
+  | .recTop j => .recTop j
   | .glob g => .glob g
   | .loc _ => .fresh
 
@@ -307,7 +321,8 @@ def srcOfObj : Obj → Src
 def writeLevels : Obj → List (Nat × Bool)
   | .root j => [(j, false)]
   | .inner j => [(j, true)]
-  | .rec j => [(j, false), (j, true)]
+  | .recd j => [(j, true)]
+  | .recTop j => [(j, false)]
   | _ => []
 
 /-- the summary a body induces; convention: parameter `j` is name `j`, the result is name `ret` -/
